@@ -24,6 +24,7 @@ type History struct {
 	CfgIdx  int
 	Funding [][2]int64 // atom, amount
 	Ops     []Op
+	AtomSet string `json:",omitempty"` // "" = standardAtoms, "k5" = plus the short addresses of W11 / W13
 }
 
 type slashEv struct {
@@ -187,12 +188,14 @@ func (r *Runner) exec(o *Op) (res string) {
 		}
 	default:
 		msg := o.msg(r.a)
-		o.OK = msg.ValidateBasic() == nil
-		if !o.OK {
+		if verr := msg.ValidateBasic(); verr != nil {
+			o.Note = "basic: " + verr.Error()
 			return "err"
 		}
+		o.OK = true
 		result, err := r.w.handler(cctx, msg)
 		if err != nil {
+			o.Note = err.Error()
 			return "err"
 		}
 		r.lastSlash = parseSlash(result.Events)
